@@ -4,6 +4,7 @@ import (
 	"bufio"
 	"bytes"
 	"context"
+	"encoding/base64"
 	"encoding/json"
 	"errors"
 	"fmt"
@@ -18,6 +19,7 @@ import (
 	"sync/atomic"
 	"testing/fstest"
 	"time"
+	"unicode/utf8"
 
 	"github.com/traefik/yaegi/interp"
 	"github.com/traefik/yaegi/stdlib"
@@ -66,6 +68,23 @@ type Result struct {
 	Value      string            `json:"value,omitempty"`
 	Post       []PostRes         `json:"post,omitempty"`
 	Data       map[string]string `json:"data,omitempty"`
+	OutB64     string            `json:"out_b64,omitempty"` // Out when it is not valid UTF-8 (JSON would alter it)
+}
+
+func (r *Result) encodeOut() {
+	if !utf8.ValidString(r.Out) {
+		r.OutB64 = base64.StdEncoding.EncodeToString([]byte(r.Out))
+		r.Out = ""
+	}
+}
+
+func (r *Result) decodeOut() {
+	if r.OutB64 != "" {
+		if b, err := base64.StdEncoding.DecodeString(r.OutB64); err == nil {
+			r.Out = string(b)
+		}
+		r.OutB64 = ""
+	}
 }
 
 // Ending summarises how the evaluation ended, in a form comparable with a native run.
@@ -106,10 +125,31 @@ func classify(err error, res *Result) {
 	res.ErrText = err.Error()
 }
 
+// capWriter keeps the first max bytes and drops the rest (a runaway script must not exhaust memory).
+type capWriter struct {
+	buf *bytes.Buffer
+	max int
+	mu  sync.Mutex
+}
+
+func (w *capWriter) Write(p []byte) (int, error) {
+	w.mu.Lock()
+	defer w.mu.Unlock()
+	if room := w.max - w.buf.Len(); room > 0 {
+		if len(p) > room {
+			w.buf.Write(p[:room])
+			w.buf.WriteString("\n#OUTPUT-LIMIT\n")
+		} else {
+			w.buf.Write(p)
+		}
+	}
+	return len(p), nil
+}
+
 // NewInterp builds an interpreter for a case, output captured in the returned buffers.
 func NewInterp(c *Case) (*interp.Interpreter, *bytes.Buffer, *bytes.Buffer) {
 	var out, errb bytes.Buffer
-	opt := interp.Options{Stdout: &out, Stderr: &errb, BuildTags: c.Tags, Env: c.Env, Args: c.Args, GoPath: c.GoPath}
+	opt := interp.Options{Stdout: &capWriter{buf: &out, max: 16 << 20}, Stderr: &capWriter{buf: &errb, max: 1 << 20}, BuildTags: c.Tags, Env: c.Env, Args: c.Args, GoPath: c.GoPath}
 	if c.Stdin != "" {
 		opt.Stdin = strings.NewReader(c.Stdin)
 	} else {
@@ -244,6 +284,7 @@ func ChildMain() {
 			}
 			select {
 			case r := <-done:
+				r.encodeOut()
 				enc.Encode(r)
 			case <-time.After(to):
 				enc.Encode(&Result{ID: c.ID, Timeout: true})
@@ -410,6 +451,7 @@ func (p *Pool) RunCases(cases []Case) []*Result {
 					continue
 				}
 				rr := r
+				rr.decodeOut()
 				out[i] = &rr
 				if r.Timeout {
 					if b, err := os.ReadFile(ch.errLog); err == nil {
